@@ -4,8 +4,10 @@
 S="$1"; NAME="$2"; shift 2
 OUT=/verif/seeded/$NAME
 mkdir -p "$OUT"
-cp "$S/patch.diff" "$S/demo.rs" "$OUT/"
-cp "$S/meta.json" "$OUT/meta.orig.json" 2>/dev/null
+if [ "$(readlink -f "$S")" != "$(readlink -f "$OUT")" ]; then
+  cp "$S/patch.diff" "$S/demo.rs" "$OUT/"
+  cp "$S/meta.json" "$OUT/meta.orig.json" 2>/dev/null
+fi
 C=$(/verif/tools/confirm_mutant.sh "$S" 2>&1)
 echo "$C" > "$OUT/confirm.txt"
 if ! echo "$C" | grep -q "^CONFIRMED"; then echo "$NAME: NOT CONFIRMED"; exit 1; fi
